@@ -258,7 +258,10 @@ def explore_all(obs, log=None, serial=False):
                     else:
                         n = 1
                     batch, work = work[:n], work[n:]
-                    tq.put((oi, batch, budget))
+                    # short budgets while there is not enough queued work to keep
+                    # every worker busy (the leftover stack comes back and is
+                    # redistributed); long ones once the queue is deep
+                    tq.put((oi, batch, 0.25 if len(work) < 2 * NWORKERS else 2.0))
                     inflight += 1
                 try:
                     roi, a, left = rq.get(timeout=600)
@@ -271,7 +274,6 @@ def explore_all(obs, log=None, serial=False):
                 inflight -= 1
                 agg.merge(a)
                 work.extend(left)
-                budget = min(3.0, budget * 1.3)
                 if agg.paths >= ob.max_paths or time.time() - t0 > ob.max_wall:
                     agg.cut = True
                     agg.unmodelled['cut:limit paths=%d wall=%ds' % (ob.max_paths, ob.max_wall)] = len(work)
